@@ -63,6 +63,12 @@ namespace LibfiberVerif.Join
   | .retn op t ok _ => t == g && ok && op != .detach
   | _ => false
 
+/-- a detach that takes the finished fiber out of its mailbox -/
+@[simp, grind] def detTake (c : Pc) (g : Nat) : Bool :=
+  match c with
+  | .take .detach t _ | .wake .detach t _ _ => t == g
+  | _ => false
+
 /-- a holds p: it took p out of a mailbox and is about to wake it -/
 @[simp, grind] def holds (c : Pc) (p : Nat) : Bool :=
   match c with
@@ -110,6 +116,12 @@ namespace LibfiberVerif.Join
 @[grind →] theorem holds_inv {c p} (h : holds c p = true) :
     (∃ op g v, c = .wake op g v p) ∨ c = .fGot p ∨ (∃ v, c = .fGotRes p v) ∨ c = .fGave p := by
   cases c <;> simp_all
+@[grind →] theorem detTake_inv {c g} (h : detTake c g = true) :
+    (∃ v, c = .take .detach g v) ∨ (∃ v p, c = .wake .detach g v p) := by
+  cases c with
+  | take op t v => cases op <;> simp_all
+  | wake op t v p => cases op <;> simp_all
+  | _ => simp_all
 @[grind →] theorem fx_st {c} (h : finX c = true) : stored c = true := by
   cases c <;> simp_all
 @[grind →] theorem pf_fx {c} (h : parkF c = true) : finX c = true := by
@@ -135,25 +147,3 @@ macro_rules
       all_goals (try (simp at $hc:ident))
       all_goals (try subst $hc:ident)))
 
-
-variable {s : St}
-example
- (mb : ∀ g, s.ji g ≠ 0 → parkedIn (s.pc (s.ji g)) (s.ji g) g = true ∧ s.holder (s.ji g) = none)
- (hh : ∀ p a, s.holder p = some a → holds (s.pc a) p = true)
- (hw : ∀ a op g v p, s.pc a = .wake op g v p → s.holder p = some a ∧ parkedIn (s.pc p) p g = true)
- (hf : (∀ a p, s.pc a = .fGot p → s.holder p = some a ∧ s.pc p = .jParked a) ∧ (∀ a p v, s.pc a = .fGotRes p v → s.holder p = some a ∧ s.pc p = .jParked a) ∧ (∀ a p, s.pc a = .fGave p → s.holder p = some a ∧ s.pc p = .jParked a))
- (a g v : Nat) (h1 : ¬(v = 0 ∨ a = v)) (t : Nat) (heq : s.pc v = Pc.jParking t) (h : t = g) (g' : Nat)
- (hne : (if g' = g then v else s.ji g') ≠ 0) :
- parkedIn (if (if g' = g then v else s.ji g') = v then Pc.jParked g else s.pc (if g' = g then v else s.ji g')) (if g' = g then v else s.ji g') g' = true ∧
-   s.holder (if g' = g then v else s.ji g') = none := by
-  by_cases hg : g' = g
-  · subst hg
-    simp
-    cases hv : s.holder v with
-    | none => rfl
-    | some b =>
-      have := hh v b hv
-      grind
-  · simp [hg] at *
-    grind
-end LibfiberVerif.Join
